@@ -232,6 +232,16 @@ impl C18 {
             let text = format!("{}\r\n{}\r\n{}\r\n    li a7, 10\r\n    ecall\r\n", c07::LineKind::Inst.text(0), k.text(1), c07::LineKind::LabelInst.text(2));
             fixed.push((format!("malformed-crlf:{}", k.name()), vec![("base.s".into(), text)]));
         }
+        // CRLF with a comment behind the broken statement (the comment is the unexpected token)
+        fixed.push((
+            "malformed-crlf:comment-as-unexpected-token".into(),
+            vec![("base.s".into(), "main:\r\n    li a0 # c\r\n    addi a0, a0, t1 # d\r\n    li a7, 10\r\n    ecall\r\n".to_string())],
+        ));
+        // an include path with an escape in it (a Windows-style path): the file does not exist
+        fixed.push((
+            "malformed:include-path-with-escape".into(),
+            vec![("base.s".into(), "main:\n    .include \"lib\\new_util.s\"\n    add zero, a0, a1\n    li a7, 10\n    ecall\n".to_string())],
+        ));
         // a line that starts with white space the lexer does not know
         for (n, ch) in [("no-break-space", '\u{a0}'), ("form-feed", '\u{c}'), ("ideographic-space", '\u{3000}')] {
             let text = format!("main:\n{ch}   li a0, 1\n    add zero, a0, a1\n    li a7, 10\n    ecall\n");
